@@ -584,6 +584,9 @@ func c08OfflineBranch(fd *ast.FuncDecl) []string {
 			case strings.HasSuffix(f, "isSuspend.CompareAndSwap"):
 				return true // already listed as the if-condition
 			}
+			if strings.HasSuffix(f, "isSuspend.Store") && len(x.Args) == 1 { // the token shape clears the flag after the receive: with its argument
+				f += "(" + types.ExprString(x.Args[0]) + ")"
+			}
 			out = append(out, "call "+f)
 		}
 		return true
